@@ -138,6 +138,9 @@ def body_fit(E, n, m, npt, spread, base, seed, linear_data):
                         'fit:regression-residual-orthogonal-to-coordinate-columns')
     E.prove(E.all([p == q for p, q in zip(E.flat(M.model_jac_eval_nums), E.flat(M.eval_num[:npt] if npt == num_pts else M.eval_num))]),
             'C11:fit:eval-number-snapshot-is-the-slots-eval-numbers')
+    snap = [v for v in E.flat(M.model_jac_eval_nums)]
+    M.eval_num[0] = 999          # a later point replacement must not change the recorded numbers
+    E.prove(E.all([p == q for p, q in zip(E.flat(M.model_jac_eval_nums), snap)]), 'C11:fit:eval-number-snapshot-is-a-copy-not-an-alias')
     if linear_data and npt >= n + 1:
         E.prove(E.all([absv(M.model_jac[i, j] - A[i, j]) <= eps * S / spread for i in range(m) for j in range(n)]), 'C11:fit:jacobian-of-linear-residuals-is-A')
 
